@@ -54,7 +54,7 @@ theorem resolveInlineRhs_spec {mm : SMap (Name × Nat)} {k : Nat} :
       rw [hsym] at hs
       cases hs
 
-theorem resolveSym_spec {se : Bool} {terms : SMap Term} {nts : List NonTerm} {p : GProd} {len : Nat} {b x : RAssign}
+theorem resolveSym_spec {se : RFlags} {terms : SMap Term} {nts : List NonTerm} {p : GProd} {len : Nat} {b x : RAssign}
     (hx : resolveSym se terms nts p len b = .ok x) :
     x.name = b.name ∧ x.sym = b.sym ∧ x.isBool = b.isBool ∧
       (∀ i, b.index = some i → x.index = some i) ∧
@@ -75,31 +75,33 @@ theorem resolveSym_spec {se : Bool} {terms : SMap Term} {nts : List NonTerm} {p 
       split at hx
       · cases hx
       · split at hx
-        · rename_i t ht
-          cases hx
-          refine ⟨rfl, rfl, rfl, ?_, ?_⟩
-          · intro j hj
-            rw [hi] at hj
-            cases hj
-          · intro _ n' hn'
-            rw [hsym] at hn'
-            cases hn'
-            exact ⟨rfl, by simp [resName, ht]⟩
-        · rename_i ht
-          split at hx
-          · cases hx
-          · rename_i nt hf
+        · cases hx
+        · split at hx
+          · rename_i t ht
+            cases hx
+            refine ⟨rfl, rfl, rfl, ?_, ?_⟩
+            · intro j hj
+              rw [hi] at hj
+              cases hj
+            · intro _ n' hn'
+              rw [hsym] at hn'
+              cases hn'
+              exact ⟨rfl, by simp [resName, ht]⟩
+          · rename_i ht
             split at hx
             · cases hx
-            · cases hx
-              refine ⟨rfl, rfl, rfl, ?_, ?_⟩
-              · intro j hj
-                rw [hi] at hj
-                cases hj
-              · intro _ n' hn'
-                rw [hsym] at hn'
-                cases hn'
-                exact ⟨rfl, by simp [resName, ht, hf]⟩
+            · rename_i nt hf
+              split at hx
+              · cases hx
+              · cases hx
+                refine ⟨rfl, rfl, rfl, ?_, ?_⟩
+                · intro j hj
+                  rw [hi] at hj
+                  cases hj
+                · intro _ n' hn'
+                  rw [hsym] at hn'
+                  cases hn'
+                  exact ⟨rfl, by simp [resName, ht, hf]⟩
     · rename_i s hsym
       split at hx
       · cases hx
@@ -112,7 +114,7 @@ theorem resolveSym_spec {se : Bool} {terms : SMap Term} {nts : List NonTerm} {p 
           cases hn
       · cases hx
 
-theorem resolveRhs_spec {se : Bool} {terms : SMap Term} {nts : List NonTerm} {p : GProd} {len : Nat} :
+theorem resolveRhs_spec {se : RFlags} {terms : SMap Term} {nts : List NonTerm} {p : GProd} {len : Nat} :
     ∀ {l l' : List RAssign}, resolveRhs se terms nts p len l = .ok l' →
       All2 (fun a a' => a'.name = a.name ∧ a'.sym = a.sym ∧ a'.isBool = a.isBool ∧
         (∀ i, a.index = some i → a'.index = some i) ∧
@@ -141,7 +143,7 @@ theorem all2_comp {α : Type} {R S T : α → α → Prop} (hc : ∀ a b c, R a 
 def ProdRes (mm : SMap (Name × Nat)) (terms : SMap Term) (nts : List NonTerm) (p p' : GProd) : Prop :=
   ∃ rhs', p' = { p with rhs := rhs' } ∧ All2 (ResOk mm terms nts) p.rhs rhs'
 
-theorem resolve_spec {se : Bool} {mm : SMap (Name × Nat)} {terms : SMap Term} {nts : List NonTerm} :
+theorem resolve_spec {se : RFlags} {mm : SMap (Name × Nat)} {terms : SMap Term} {nts : List NonTerm} :
     ∀ {ps ps1 ps2 : List GProd}, resolveInline mm ps = .ok ps1 → resolveRefs se terms nts ps1 = .ok ps2 →
       All2 (ProdRes mm terms nts) ps ps2
   | [], ps1, ps2, h1, h2 => by
